@@ -8,6 +8,7 @@ import (
 	"fmt"
 	"io"
 	"net/http"
+	"time"
 
 	"connectrpc.com/conformance/internal"
 	conformancev1 "connectrpc.com/conformance/internal/gen/proto/go/connectrpc/conformance/v1"
@@ -104,4 +105,20 @@ func VerifC17StartReal(httpVersion int32) (addr string, err error) {
 	}
 	go func() { _ = svr.Serve() }()
 	return svr.Addr(), nil
+}
+
+// VerifC17StartRealStop is VerifC17StartReal for a server of one's own: a new createServer stack
+// (new CORS object, new mux, new interceptors) that stop shuts down again.
+func VerifC17StartRealStop(httpVersion int32) (addr string, stop func(), err error) {
+	req := &conformancev1.ServerCompatRequest{
+		Protocol:    conformancev1.Protocol_PROTOCOL_CONNECT,
+		HttpVersion: conformancev1.HTTPVersion(httpVersion),
+	}
+	svr, _, err := createServer(req, "127.0.0.1:0", "", "", true, internal.NewPrinter(io.Discard), nil)
+	if err != nil {
+		return "", nil, err
+	}
+	done := make(chan struct{})
+	go func() { _ = svr.Serve(); close(done) }()
+	return svr.Addr(), func() { _ = svr.GracefulShutdown(2 * time.Second); <-done }, nil
 }
